@@ -18,6 +18,9 @@ pub struct ReqPlan {
     pub tok: String,
     /// the headers declare a body (Content-Length given by the plan) that is never sent: only the head goes out
     pub declared_only: bool,
+    /// a slow client: pause (simulated ms) after the head, and once more in the middle of the body
+    pub after_head_ms: u64,
+    pub mid_body_ms: u64,
 }
 
 #[derive(Clone, Debug)]
@@ -171,7 +174,28 @@ pub async fn run_conn(p: ConnPlan) -> ConnResult {
         for r in &p.reqs {
             let bytes = serialise(r);
             let mut rr = ReqResult { tok: r.tok.clone(), t_sent_ns: vrt::time::now_ns(), wall_sent_ns: vrt::time::wall_now_ns(), ..Default::default() };
-            match rd.s.write_all(&bytes).await {
+            // a slow client delivers head, first half of the body and the rest with pauses in between
+            let head_end = bytes.windows(4).position(|w| w == b"\r\n\r\n").map(|i| i + 4).unwrap_or(bytes.len());
+            let mut cuts: Vec<(usize, u64)> = Vec::new();
+            if r.after_head_ms > 0 && head_end < bytes.len() {
+                cuts.push((head_end, r.after_head_ms));
+            }
+            if r.mid_body_ms > 0 && bytes.len() > head_end + 1 {
+                cuts.push((head_end + (bytes.len() - head_end) / 2, r.mid_body_ms));
+            }
+            let mut sent_ok: Result<(), std::io::Error> = Ok(());
+            let mut from = 0usize;
+            for (at, ms) in cuts {
+                if sent_ok.is_ok() {
+                    sent_ok = rd.s.write_all(&bytes[from..at]).await;
+                    from = at;
+                    tokio::time::sleep(Duration::from_millis(ms)).await;
+                }
+            }
+            if sent_ok.is_ok() {
+                sent_ok = rd.s.write_all(&bytes[from..]).await;
+            }
+            match sent_ok {
                 Ok(()) => rr.sent = true,
                 Err(e) => {
                     rr.err = Some(e.to_string());
@@ -205,6 +229,10 @@ pub async fn run_conn(p: ConnPlan) -> ConnResult {
                 tokio::time::sleep(Duration::from_millis(p.gap_ms)).await;
             }
         }
+    }
+    if p.reqs.is_empty() && p.close != "normal" {
+        // connect and go away without a request (probe, cancelled call, killed process): reset or orderly close
+        go_away(&mut rd, &p.close).await;
     }
     out.t_close_ns = vrt::time::now_ns();
     out
@@ -252,6 +280,8 @@ pub fn req_from_json(v: &Value) -> ReqPlan {
         chunks: v["chunks"].as_array().map(|a| a.iter().map(|x| x.as_u64().unwrap_or(1) as usize).collect()),
         tok: v["tok"].as_str().unwrap_or("").to_string(),
         declared_only: v["declared_only"].as_bool().unwrap_or(false),
+        after_head_ms: v["slow"]["after_head_ms"].as_u64().unwrap_or(0),
+        mid_body_ms: v["slow"]["mid_body_ms"].as_u64().unwrap_or(0),
     }
 }
 
